@@ -223,6 +223,9 @@ fn after_end_calls<I: Input>(p: &mut Parser<'_, I>, extra: u8) -> Option<String>
 
 impl ParserVisitor for Drive<'_> {
     type Out = DriveResult;
+    fn construct_failed(self, end: End) -> DriveResult {
+        DriveResult { end, events: 0, max_depth: 0 }
+    }
     fn visit<'a, I: Input>(self, mut p: Parser<'a, I>) -> DriveResult {
         let case = self.case;
         let max_events = self.max_events as u64;
